@@ -1,5 +1,6 @@
 import copy
 import enum
+import re
 from typing import Tuple
 
 import valida.data
@@ -9,6 +10,12 @@ from valida.errors import (
     IncompatibleRules,
     MalformedDataPathSpec,
 )
+
+
+# A literal mapping argument whose key looks like a data path spec key is written with
+# the escape code (a backslash) before "path":
+ESCAPED_PATH_KEY = re.compile(r"\\(path)", re.IGNORECASE)
+PATH_KEY = re.compile(r"(path)", re.IGNORECASE)
 
 
 def get_container_value_condition(
@@ -155,13 +162,11 @@ class DataPath:
         else:
             spec_key, spec_val = next(iter(spec.items()))  # single-item dict
 
-        REPLACE = "path"
-        ESC_CODE = rf"\{REPLACE}"
-        if any(isinstance(k, str) and ESC_CODE in k for k in spec):
+        if any(isinstance(k, str) and ESCAPED_PATH_KEY.search(k) for k in spec):
             # an escaped (literal) mapping: return an un-escaped copy, leaving the
             # caller's spec as it is
             return {
-                (k.replace(ESC_CODE, REPLACE) if isinstance(k, str) else k): v
+                (ESCAPED_PATH_KEY.sub(r"\1", k) if isinstance(k, str) else k): v
                 for k, v in spec.items()
             }
 
@@ -192,6 +197,26 @@ class DataPath:
                 )
 
         return obj
+
+    @staticmethod
+    def is_spec_like(mapping):
+        """True if `from_spec` would not read this literal mapping back as itself."""
+        keys = [k for k in mapping if isinstance(k, str)]
+        if any(ESCAPED_PATH_KEY.search(k) for k in keys):
+            return True
+        return (
+            len(mapping) == 1
+            and bool(keys)
+            and keys[0].lower().split(".")[0] == "path"
+        )
+
+    @staticmethod
+    def escape_spec_like(mapping):
+        """Escape the keys of a literal mapping so `from_spec` reads it back as is."""
+        return {
+            (PATH_KEY.sub(r"\\\1", k) if isinstance(k, str) else k): v
+            for k, v in mapping.items()
+        }
 
     def to_spec(self):
         """Get a spec that can be passed to `DataPath.from_spec`."""
